@@ -6,7 +6,14 @@ P1  TLC checks the driver model spec/Redir.tla (one action per step of
     every scenario of the bounded families: each complete behaviour, turned
     into an observation record, must be allowed by the oracle
     spec/RedirAbs.tla (invariant Conforms); a negative configuration with a
-    named wrong action must be caught.
+    named wrong action must be caught.  Besides the non-interactive shell the
+    scenarios include the interactive shell (which survives the errors of
+    special built-ins: the table must be restored) and `exec` WITH operands
+    whose utility cannot be executed (not found / no such path / not executable
+    / a directory / refused by the system): the redirections persist exactly as
+    without operands, observable where the shell survives (interactive); a
+    non-interactive shell ends, observed through its status, the files and the
+    table it ended with.
 P2  every scenario enumerated by TLC (initial table, noclobber, limit, command
     kind, redirection list) is run by the real shell on the simulated OS
     (harness/c09 `replay`); the observation records are judged by TLC with the
@@ -32,8 +39,9 @@ PID = "C09"
 PKG = "yv-c09"
 
 FAMILY = {"quick": "quick", "thorough": "thorough"}       # union families of spec/Redir.tla (q1..q4 / t1..t4)
-NEGATIVE = {"quick": ["leak", "movenoclose", "hereleak"], "thorough": ["leak", "movenoclose", "hereleak", "fwd", "savelow", "savenocx", "noclobberall", "closesrc",
-                                            "keepall", "clobber"]}
+NEGATIVE = {"quick": ["leak", "movenoclose", "hereleak", "dropop"],
+            "thorough": ["leak", "movenoclose", "hereleak", "dropop", "fwd", "savelow", "savenocx", "noclobberall",
+                         "closesrc", "keepall", "clobber"]}
 RANDOM_RUNS = {"quick": 1200, "thorough": 8000}
 FILE_OPS = ("in", "out", "clob", "app", "rw")
 
@@ -119,6 +127,7 @@ def _key(rec, verdict, nested_leak=""):
     return {
         "clauses": "+".join(sorted(clauses)),
         "kind": rec["kind"],
+        "interactive": bool(rec.get("inter", False)),
         "fail_op": op,
         "fail_operand": operand,
         "target_open": target_open,
@@ -166,13 +175,13 @@ def _report(rep, recs_path, verdicts, what, scripts=None):
         rep.violation(key, detail, replay)
 
 
-def _samples(path, idx=(1500, 12000, 30000)):
+def _samples(path, idx=(1500, 12000, 30000, 68000)):
     out = []
     with open(path) as f:
         for i, line in enumerate(f):
             if i in idx:
                 r = json.loads(line)
-                out.append({k: r[k] for k in ("kind", "nc", "lim", "list", "ran", "st", "exited", "after")})
+                out.append({k: r[k] for k in ("kind", "inter", "nc", "lim", "list", "ran", "st", "exited", "after")})
     return out
 
 
@@ -184,8 +193,10 @@ def run(tier):
 
     # P1 negative configurations: the named wrong action must be caught
     neg_caught = {}
-    for bug in NEGATIVE[tier]:
-        r = vlib.tlc("Redir", f"Redir_neg_{bug}.cfg", workers=8, timeout=900, deadlock=True)
+    with ThreadPoolExecutor(max_workers=4) as ex:
+        neg_results = list(ex.map(lambda bug: vlib.tlc("Redir", f"Redir_neg_{bug}.cfg", workers=3, timeout=900,
+                                                       deadlock=True), NEGATIVE[tier]))
+    for bug, r in zip(NEGATIVE[tier], neg_results):
         caught = bool(r.violation) and "Conforms" in r.violation
         neg_caught[bug] = caught
         if not caught:
@@ -253,7 +264,12 @@ def run(tier):
     bad = {v["id"] for v in verdicts}
     drift = {}
     faults = {"scenarios_with_fault": 0, "fault_fired": 0}
+    shells = {"interactive": 0, "exec_with_operands_interactive": 0, "exec_with_operands_noninteractive": 0}
     for rec in vlib.read_ndjson(recs):
+        if rec.get("inter"):
+            shells["interactive"] += 1
+        if rec["kind"].startswith("exec") and rec["kind"] != "exec":
+            shells["exec_with_operands_interactive" if rec.get("inter") else "exec_with_operands_noninteractive"] += 1
         if rec["drift"] and rec["id"] not in bad:
             drift[rec["drift"]] = drift.get(rec["drift"], 0) + 1
         if rec.get("flt"):
@@ -264,12 +280,15 @@ def run(tier):
     _report(rep, rrecs, v3, "random script", scripts)
     kinds = {}
     faults.update({"random_records_with_fault": 0, "random_fault_fired": 0})
+    shells["random_records_interactive"] = 0
     for rec in vlib.read_ndjson(rrecs):
         kinds[rec["kind"]] = kinds.get(rec["kind"], 0) + 1
+        shells["random_records_interactive"] += 1 if rec.get("inter") else 0
         if rec.get("flt"):
             faults["random_records_with_fault"] += 1
             faults["random_fault_fired"] += 1 if rec.get("fired") else 0
     vlib.log(f"[faults] {faults}")
+    vlib.log(f"[shells] {shells}")
     samples = _samples(recs)
     for p in (recs, rrecs, scr, allrecs):
         os.remove(p)
@@ -298,6 +317,7 @@ def run(tier):
         "known_finding_hits": {k: v[1] for k, v in rep.known_hits.items()},
         "drift": drift,
         "fault_injection": faults,
+        "shells": shells,
     }, time.time() - t0, violations=len(rep.violations), assumptions=[
         "the shell runs on yash-env's VirtualSystem (simulated OS); descriptor numbers >= 10 are never opened "
         "by the scripts themselves, so every descriptor >= 10 is the shell's own",
@@ -307,6 +327,9 @@ def run(tier):
         "fault injection (harness/c09 Faulty system): one call of open / open_tmpfile / F_DUPFD / write / lseek / "
         "pipe made for the command fails; dup2 and close are not made to fail (dup2 is also what restores the "
         "table, and the shell ignores close errors)",
+        "the interactive shell is `-i +m` (no job control, no terminal) reading a command string or a script "
+        "file through yash-semantics' interactive read-eval loop; the table a non-interactive shell ends with "
+        "after a failed `exec utility` is recorded but not prescribed (nobody can observe it)",
         "TLC 1.8.0 and the JSON community module are trusted",
     ])
     return rc
@@ -327,6 +350,7 @@ def replay(path):
             print(obj["replay"]["script"])
     else:
         sc = {k: rec[k] for k in ("kind", "nc", "lim", "bst", "list", "init")}
+        sc["inter"] = rec.get("inter", False)
         with open(src, "w") as f:
             f.write(json.dumps({"sc": sc}) + "\n")
         _, script, _ = vlib.run_harness(PKG, ["script", "--in", src])
